@@ -4,6 +4,7 @@ import (
 	"bytes"
 	"fmt"
 	"math"
+	"sort"
 	"strconv"
 	"strings"
 )
@@ -701,6 +702,57 @@ func genC11(tier string, seed uint64, emit func(string)) {
 	n := 60
 	if tier == "thorough" {
 		n = 2500
+	}
+	// long values (around and beyond 4 KiB / 64 KiB / 128 KiB) that themselves contain CR LF pairs and look-alike frames,
+	// cut at the offsets where a lenient reader could take the fragment for a complete value: right behind every
+	// embedded CR LF (+0, +1, +2), around the declared end, and at random offsets
+	longSizes := []int{4200, 66000}
+	if tier == "thorough" {
+		longSizes = []int{4094, 4200, 65534, 65535, 66000, 70000, 131080, 200000}
+	}
+	for _, sz := range longSizes {
+		var val []byte
+		for len(val) < sz {
+			val = append(val, []byte(fmt.Sprintf("line %d of the document\r\n", len(val)))...)
+			if len(val)%7 == 0 {
+				val = append(val, []byte("+OK\r\n$3\r\nabc\r\n")...)
+			}
+		}
+		val = val[:sz]
+		req := requestBytes([][]byte{[]byte("SET"), []byte("doc"), val}, nil)
+		b := append(append(reqS("PING"), req...), reqS("PING")...)
+		first := len(reqS("PING"))
+		cuts := map[int]bool{}
+		for i := first; i+1 < first+len(req); i++ {
+			if b[i] == '\r' && b[i+1] == '\n' {
+				if len(cuts) < 400 || r.Chance(1, 20) {
+					cuts[i+2], cuts[i+3], cuts[i+1] = true, true, true
+				}
+			}
+		}
+		for d := -4; d <= 4; d++ {
+			cuts[first+len(req)+d] = true
+		}
+		for k := 0; k < 100; k++ {
+			cuts[first+r.Intn(len(req))] = true
+		}
+		var cutList []int
+		for cut := range cuts {
+			cutList = append(cutList, cut)
+		}
+		sort.Ints(cutList)
+		for _, cut := range cutList {
+			if cut < 0 || cut > len(b) {
+				continue
+			}
+			complete := 0
+			for _, e := range []int{first, first + len(req), len(b)} {
+				if e <= cut {
+					complete++
+				}
+			}
+			emit(serveLine("-", [][]byte{b[:cut]}, "r s:4f4b", "", fmt.Sprintf("complete %d", complete)))
+		}
 	}
 	for i := 0; i < n; i++ {
 		p := genPipeline(r, 4, true)
